@@ -1,14 +1,14 @@
-use vlib::{core::*, sim_checks as sc};
+use vlib::{core::*, sim_pd as sc};
 
 fn main() {
     let args = parse_args();
 
     install_quiet_panic_hook();
-    install_hang_watchdog("C09", 120, false);
+    install_hang_watchdog("C07", 120, true);
 
-    let run = |c: &sc::C09Case, info: &mut CaseInfo| match catch(|| {
+    let run = |c: &sc::C07Case, info: &mut CaseInfo| match catch(|| {
         let mut i2 = CaseInfo::default();
-        let r = sc::run_c09(c, &mut i2);
+        let r = sc::run_c07(c, &mut i2);
         (r, i2)
     }) {
         Ok((r, i2)) => {
@@ -19,7 +19,7 @@ fn main() {
             let site = panic_site(&p);
 
             if is_repo_site(&site) {
-                Err(Fail::new(format!("C09|panic|{site}"), p))
+                Err(Fail::new(format!("C07|panic|{site}"), p))
             } else {
                 Err(Fail::new(format!("harness-panic|{site}"), p))
             }
@@ -27,22 +27,22 @@ fn main() {
     };
 
     if let Some(path) = &args.replay {
-        let (_k, case): (String, sc::C09Case) = load_replay(path);
+        let (_k, case): (String, sc::C07Case) = load_replay(path);
         hang_begin("replay", &case);
         let mut info = CaseInfo::default();
 
-        finish_replay("C09", path, run(&case, &mut info));
+        finish_replay("C07", path, run(&case, &mut info));
     }
 
-    let mut check = Check::new("C09", args);
+    let mut check = Check::new("C07", args);
     let tier = check.tier();
 
-    check.rule = sc::C09_RULE.to_string();
+    check.rule = sc::C07_RULE.to_string();
     check.assumptions = vec![
         "devices are simulated (harness/vlib/src/simnet.rs, written from ETG.1000.4/.6 and ESC register semantics, no ethercrab code); the generated network description is the ground truth".into(),
         "time is virtual; every frame round trip costs 5 us".into(),
     ];
 
-    check.run_prop("simnet-init", 16, tier.pick(150, 4_000), sc::c09_case, run);
+    check.run_prop("simnet-cycle", 16, tier.pick(1_000, 25_000), sc::c07_case, run);
     check.finish();
 }
